@@ -10,19 +10,25 @@ ROOT = "/verif"; SRC = "/tmp/refac/out"; DST = os.path.join(ROOT, "rewrites")
 os.makedirs(DST, exist_ok=True)
 only = sys.argv[1:]
 extra = [a for a in os.environ.get("REWRITE_EXTRA_CHECKS", "").split(",") if a]
-for prop in sorted(os.listdir(SRC)):
-    for r in sorted(os.listdir(os.path.join(SRC, prop))):
-        d = os.path.join(SRC, prop, r)
-        if not os.path.isfile(os.path.join(d, "patch.diff")):
-            continue
-        rid = f"{prop}-{r}"
-        if only and rid not in only and prop not in only:
-            continue
-        out = os.path.join(DST, rid)
-        os.makedirs(out, exist_ok=True)
-        for f in ("patch.diff", "README.md"):
-            if os.path.exists(os.path.join(d, f)):
-                shutil.copy(os.path.join(d, f), os.path.join(out, f))
+# new rewrites delivered under /tmp/refac/out/<prop>/<rN>/ are installed first
+if os.path.isdir(SRC):
+    for prop in sorted(os.listdir(SRC)):
+        for r in sorted(os.listdir(os.path.join(SRC, prop))):
+            d = os.path.join(SRC, prop, r)
+            if os.path.isfile(os.path.join(d, "patch.diff")):
+                out = os.path.join(DST, f"{prop}-{r}")
+                os.makedirs(out, exist_ok=True)
+                for f in ("patch.diff", "README.md"):
+                    if os.path.exists(os.path.join(d, f)):
+                        shutil.copy(os.path.join(d, f), os.path.join(out, f))
+for rid in sorted(os.listdir(DST)):
+    out = os.path.join(DST, rid)
+    if not os.path.isfile(os.path.join(out, "patch.diff")):
+        continue
+    prop = rid.split("-")[0]
+    if only and rid not in only and prop not in only:
+        continue
+    if True:
         mp = os.path.join(out, "meta.json")
         meta = json.load(open(mp)) if os.path.exists(mp) else {"area_of_property": prop, "results": {}}
         wt = f"/tmp/rw-rewrite-{rid}"
